@@ -146,6 +146,7 @@ def run(ctx):
                                            {"op": "send", "chunking": "perreq", "reqs": [R("GET", S("ky")), R("EXISTS", S("kx"))]}], "example"))
         # (6) several connections answered at the same time through a slow transport: everybody keeps getting their own replies
         scenarios += [cmdlib.concurrent_slow(v) for v in range(4)]
+        scenarios += [cmdlib.concurrent_big(v) for v in range(2)] + [cmdlib.concurrent_config(v) for v in range(6)]
         counts["special_scenarios"] = 7
     ctx.stage("generate")
     accepted, scs, lines = connlib.run_scenarios(ctx, scenarios, "c07")
